@@ -202,7 +202,7 @@ def correspondence(ck, cases, shard=1200):
         txt = (HEADER + "Definition cases : list ccase := [\n  "
                + ";\n  ".join(t for _, t in part) + "\n].\n"
                "Definition M := Eval vm_compute in mismatches cases.\nPrint M.\n")
-        rc, out = ck.coq_eval("cases_%d" % k, txt)
+        rc, out = ck.coq_eval("cases_%d" % k, txt, timeout=300)
         got = vlib.parse_coq_list_of_nat(out, "M") if rc == 0 else None
         return k, got, out
 
